@@ -109,6 +109,12 @@ extern "C"
 #endif
 int ext_value(void);
 #endif
+#ifdef USE_EXT2
+#ifdef __cplusplus
+extern "C"
+#endif
+int ext_only_new(void);
+#endif
 #define STR2(x) #x
 #define STR(x) STR2(x)
 #ifdef PROVOKE
@@ -177,6 +183,9 @@ int main(int argc, char **argv) {
 #ifdef USE_EXT
   printf("EXT=%d\n", ext_value());
 #endif
+#ifdef USE_EXT2
+  printf("EXT2=%d\n", ext_only_new());
+#endif
   return 0;
 }
 '''
@@ -215,7 +224,8 @@ def all_cases(tier, seed):
         # later definition is the one the compiler must see
         for special in ('redefine-same-list', 'redefine-global-target',
                         'env-two-token-flags', 'env-iquote-same-dir',
-                        'pch-in-shared-library', 'pch-in-dual-library'):
+                        'pch-in-shared-library', 'pch-in-dual-library',
+                        'libdir-repeated'):
             cases.append({'compiler': cname, 'lang': lang, 'cenv': cenv,
                           'placement': 'target', 'envflags': False,
                           'opts': [], 'special': special})
@@ -280,6 +290,11 @@ def render(case, src):
         sandbox.write_file(os.path.join(sdk, 'probe_inc.h'),
                            '#define PROBE_INC 42\n')
         copts += ["opts.include_dir(header_directory({!r}))".format(sdk)]
+    elif special == 'libdir-repeated':
+        # library directories are searched in the order they were first
+        # given, also when one of them is named again later
+        defs += ['USE_EXT', 'USE_EXT2']
+        os.makedirs(os.path.join(src, 'oldlib'), exist_ok=True)
     elif special in ('pch-in-shared-library', 'pch-in-dual-library'):
         defs += ['USE_EXT']
         sandbox.write_file(
@@ -317,6 +332,12 @@ def render(case, src):
             kw.append('link_options=[{}]'.format(', '.join(lopts)))
     if pch:
         kw.append("pch='pch.h'")
+    if special == 'libdir-repeated':
+        # pre-built shared libraries given as files: new/ext, old/bar,
+        # new/baz; old/ also holds a stale libext.so
+        kw.append("libs=[shared_library('extlib/libext.so'), "
+                  "shared_library('oldlib/libbar.so'), "
+                  "shared_library('extlib/libbaz.so')]")
     if special in ('pch-in-shared-library', 'pch-in-dual-library'):
         # the link step adds its own compile options (-fPIC ...): the
         # precompiled header must be built with them too
@@ -358,11 +379,28 @@ def check_case(rec, case):
         render(case, src)
         # prebuilt external library for lib_dir + lib
         sandbox.write_file(os.path.join(tmp, 'ext.c'),
-                           'int ext_value(void) { return 99; }\n')
+                           'int ext_value(void) { return 99; }\n'
+                           'int ext_only_new(void) { return 5; }\n')
         subprocess.run(['gcc', '-c', os.path.join(tmp, 'ext.c'), '-o',
                         os.path.join(tmp, 'ext.o')], check=True)
         subprocess.run(['ar', 'cr', os.path.join(src, 'extlib', 'libext.a'),
                         os.path.join(tmp, 'ext.o')], check=True)
+        if case.get('special') == 'libdir-repeated':
+            for d, name, body in (
+                    ('oldlib', 'ext', 'int ext_value(void) { return 1; }'),
+                    ('oldlib', 'bar', 'int bar_value(void) { return 2; }'),
+                    ('extlib', 'baz', 'int baz_value(void) { return 3; }')):
+                c = os.path.join(tmp, d + '_' + name + '.c')
+                sandbox.write_file(c, body + '\n')
+                subprocess.run(['gcc', '-shared', '-fPIC', c, '-o',
+                                os.path.join(src, d,
+                                             'lib{}.so'.format(name))],
+                               check=True)
+            subprocess.run(['gcc', '-shared', '-fPIC',
+                            os.path.join(tmp, 'ext.c'), '-o',
+                            os.path.join(src, 'extlib', 'libext.so')],
+                           check=True)
+            os.unlink(os.path.join(src, 'extlib', 'libext.a'))
         extra = dict(case['cenv'])
         if case['envflags']:
             extra['CFLAGS' if lang == 'c' else 'CXXFLAGS'] = \
@@ -450,6 +488,11 @@ def check_case(rec, case):
             rec.fail('option/no-effect/' + sp, '{}: include_dir() of a '
                      'directory that CPPFLAGS names with -iquote: INC={!r}'
                      .format(case['compiler'], out.get('INC')), jcase)
+        if sp == 'libdir-repeated' and out.get('EXT') != '99':
+            rec.fail('option/no-effect/' + sp, '{}: -lext must come from the '
+                     'directory given first (99), got EXT={!r}; build output: '
+                     '{}'.format(case['compiler'], out.get('EXT'),
+                                 text.strip()[-300:]), jcase)
         if sp in ('pch-in-shared-library', 'pch-in-dual-library') and \
                 out.get('EXT') != '50':
             rec.fail('option/no-effect/' + sp, '{}: the library built with a '
